@@ -193,6 +193,9 @@ impl Prop for C19 {
     }
     fn gen(&self, rng: &mut Rng, _tier: Tier, _idx: u64) -> Case {
         let mut c = self.base_case(rng);
+        if rng.chance(1, 40) {
+            c.layout.padding_kb = *rng.pick(&[9u8, 20, 33]);
+        }
         let len = c.model.render(&c.layout, None).text.len() as u64;
         c.entry = if rng.chance(1, 4) { Entry::Reader } else { Entry::File };
         let role = if c.entry == Entry::File { FILE } else { STREAM };
@@ -204,6 +207,11 @@ impl Prop for C19 {
                 3 => Chunk::Rand { max: 1 + rng.below(5) as u32, seed: rng.next() },
                 _ => Chunk::Rand { max: 1 + rng.below(100) as u32, seed: rng.next() },
             };
+        }
+        if c.layout.padding_kb > 0 {
+            if let Chunk::One = c.chunk_r {
+                c.chunk_r = Chunk::Rand { max: 4096, seed: rng.next() };
+            }
         }
         match mode {
             0..=5 => {}
@@ -267,6 +275,9 @@ impl Prop for C19 {
             bytes.truncate(k as usize);
         }
         x.nontrivial = true;
+        if full_len > 8192 {
+            x.count("probe.file_larger_than_bufreader");
+        }
         let lines_present = bytes.iter().filter(|b| **b == b'\n').count() + (!bytes.is_empty() && *bytes.last().unwrap() != b'\n') as usize;
         let cut_before_last_required = case.truncate.map(|k| (k as usize) < r.last_required_start);
         let cut_inside_or_after = case.truncate.map(|k| (k as usize) >= r.last_required_start && (k as usize) < full_len);
@@ -482,7 +493,7 @@ impl Prop for C19 {
         vec!["libc read/open and the SimReader stream (fault plan applied, then the real call)", "the producer of the file (independent renderer)"]
     }
     fn required_probes(&self, _t: Tier) -> Vec<&'static str> {
-        vec!["fault.eio_read", "fault.eintr_read", "fault.short_read", "fault.open_fail", "probe.malformed_rejected", "probe.truncation_rejected", "probe.err_after_hard_fault", "sys.read"]
+        vec!["fault.eio_read", "fault.eintr_read", "fault.short_read", "fault.open_fail", "probe.malformed_rejected", "probe.truncation_rejected", "probe.err_after_hard_fault", "probe.file_larger_than_bufreader", "sys.read"]
     }
 }
 
